@@ -408,6 +408,14 @@ where
                     "Unexpected end of file.",
                 ));
             }
+            // A complete line ends with a line terminator. If it is missing, the report has been
+            // cut in the middle of a path.
+            if !path_str.ends_with('\n') {
+                return Err(Error::new(
+                    ErrorKind::UnexpectedEof,
+                    "Unexpected end of file.",
+                ));
+            }
             // Strip only the indentation and the line terminator;
             // any other whitespace belongs to the (escaped) path.
             let escaped_path = match path_str
